@@ -25,7 +25,9 @@ from harness.translate import programs as trp
 from harness.translate import status as trs
 
 THEOREMS = ["transition_followed_by_history", "conservation", "history_multiset_eq_transitions",
-            "history_sorted_is_the_change_sequence", "stored_subset_log"]
+            "history_sorted_is_the_change_sequence", "stored_subset_log",
+            # Props/C10Flush.lean: the flush waits for every registered writer (track before start, the list only grows)
+            "inv_step", "flush_waits_for_every_writer", "pruning_lets_the_flush_return_early", "code_tracks_before_start_and_never_forgets"]
 
 
 class Recorder:
@@ -473,6 +475,9 @@ def run(ctx: Ctx) -> None:
     def gen() -> dict[str, str]:
         g = trs.gen()
         g.update(trp.gen(ctx.tmp))
+        from harness.translate import histwriter
+
+        g.update(histwriter.gen())
         return g
 
     lean_stage(ctx, gen, THEOREMS)
